@@ -1,0 +1,43 @@
+//go:build verif
+
+package multicidrset
+
+import (
+	"net"
+	"sort"
+)
+
+// Read-only test hooks for the verification harness under /verif.
+// They are compiled only with the build tag "verif".
+
+// VerifIndexToCIDRBlock exposes indexToCIDRBlock.
+func (s *MultiCIDRSet) VerifIndexToCIDRBlock(index int) (*net.IPNet, error) {
+	return s.indexToCIDRBlock(index)
+}
+
+// VerifIndexForIP exposes getIndexForIP.
+func (s *MultiCIDRSet) VerifIndexForIP(ip net.IP) (int, error) {
+	return s.getIndexForIP(ip)
+}
+
+// VerifBeginEnd exposes getBeginningAndEndIndices.
+func (s *MultiCIDRSet) VerifBeginEnd(cidr *net.IPNet) (int, int, error) {
+	return s.getBeginningAndEndIndices(cidr)
+}
+
+// VerifState returns the counter, the cursor, the cluster mask size and the sorted keys of the allocation map.
+func (s *MultiCIDRSet) VerifState() (int, int, int, []string) {
+	s.Lock()
+	defer s.Unlock()
+	keys := make([]string, 0, len(s.AllocatedCIDRMap))
+	for k := range s.AllocatedCIDRMap {
+		keys = append(keys, k)
+	}
+	sort.Strings(keys)
+	return s.allocatedCIDRs, s.nextCandidate, s.clusterMaskSize, keys
+}
+
+// VerifGetMaxCIDRs exposes getMaxCIDRs.
+func VerifGetMaxCIDRs(subNetMaskSize, clusterMaskSize int) int {
+	return getMaxCIDRs(subNetMaskSize, clusterMaskSize)
+}
